@@ -1,7 +1,7 @@
 (* C05 - Delayed messages are never delivered early and never forgotten: the RabbitMQ client (RabbitBroker.v) over the server description AmqpSrv.v
    (trusted, written from the RabbitMQ documentation; no server is available here to compare it with).
    Statements only; every proof is `exact <lemma>`. *)
-From Repid Require Import Base Sched AmqpSrv RabbitBroker RabbitProofs.
+From Repid Require Import Base Sched AmqpSrv RabbitBroker RabbitProofs GenSched GenRabbit GenRabbitProofs.
 
 (* never early (since the fix recorded for C05: the TTL is rounded UP to the millisecond): a message whose due time d lies
    ahead goes to the delayed queue with a TTL that runs out at d or later ... *)
@@ -27,7 +27,20 @@ Theorem C05_rabbit_delayed_head_of_line_refuted :
   map a_id (ready (w_srv (fst (run_w env_w world0 (firstn 6 h_delayed_hol)))) (mkQK 1 QDelayed)) = [1; 2].
 Proof. exact rabbit_delayed_head_of_line_refuted. Qed.
 
+(* the expiration the model's enqueue files a delayed message under IS the one RabbitMessageBroker.enqueue computes at /repo's
+   current source (GenRabbit.v is regenerated from it on every run): whole milliseconds, rounded up *)
+Theorem C05_rabbit_source_is_model_expiration : forall e pcode p now,
+  zassoc pcode (ptab e) = Some p -> expiration_of e pcode now = gen_rabbit_expiration p now.
+Proof. exact gen_rabbit_expiration_model. Qed.
+
+(* ... so the message leaves the delayed queue not before its due time and less than a millisecond after it *)
+Theorem C05_rabbit_source_expiration_covers : forall p now d ms,
+  wait_until p now = Some d -> gen_rabbit_expiration p now = Some ms -> d <= now + ms * 1000 < d + 1000.
+Proof. exact gen_rabbit_expiration_covers. Qed.
+
 Print Assumptions C05_rabbit_delay_covers_due.
 Print Assumptions C05_rabbit_expiry_not_early.
 Print Assumptions C05_rabbit_immediate.
 Print Assumptions C05_rabbit_delayed_head_of_line_refuted.
+Print Assumptions C05_rabbit_source_is_model_expiration.
+Print Assumptions C05_rabbit_source_expiration_covers.
